@@ -266,7 +266,16 @@ pub fn gen(prop: &str, seed: u64) -> Plan {
         "C18" => gen_c18(seed),
         "C17" => {
             // histories with scripts, matched blocks, set_scripts during sync and reorgs
-            let mut p = if seed % 3 == 0 { gen("C04", seed) } else { gen("C09", seed) };
+            let mut p = if seed % 3 == 0 {
+                gen("C04", seed)
+            } else if seed % 6 == 1 {
+                // a reorg the client notices: the proof commit rolls back under the lock
+                let mut p = gen_c08_with(seed, true);
+                p.flags.retain(|f| f != "crash");
+                p
+            } else {
+                gen("C09", seed)
+            };
             p.property = "C17".into();
             p
         }
@@ -592,6 +601,12 @@ fn gen_c09(seed: u64) -> Plan {
 
 /// Short sync histories whose every storage write boundary is then crashed (see `vsim crash`).
 fn gen_c08(seed: u64) -> Plan {
+    gen_c08_with(seed, false)
+}
+
+/// `force_fork`: the history contains a shallow reorg of the kind the client notices and rolls
+/// back (used for the C17 histories).
+fn gen_c08_with(seed: u64, force_fork: bool) -> Plan {
     let mut b = base("C08", seed, 60, 2);
     b.plan.chain.recommit = mix(&[seed, 0xc08e]) % 3 == 0;
     b.plan.trace_logging = false;
@@ -634,9 +649,9 @@ fn gen_c08(seed: u64) -> Plan {
         "expect_caught_up".into(),
         "stop_when_caught_up".into(),
     ];
-    if b.rng.chance(1, 3) {
+    if b.rng.chance(1, 3) || force_fork {
         // a shallow reorg during the sync: the writes of the fork rollback are crash points too
-        let noticed = b.rng.chance(1, 2);
+        let noticed = b.rng.chance(1, 2) || force_fork;
         if noticed {
             // the new tip is more than last-n ahead of the old one, so the request starts at the
             // old tip, the peer sends a reorg section and the client really rolls back
@@ -770,6 +785,12 @@ fn gen_c10(seed: u64) -> Plan {
         for _ in 0..b.rng.range(1, 4) {
             let at = b.rng.range(4_000, until);
             add(&mut b.plan, at, Action::Inject { peer: attacker, spec: InjectSpec { seed: b.rng.next_u64(), kind: 103 } });
+        }
+    }
+    if mix(&[seed, 0x10e]) % 2 == 0 {
+        // check-point answers that run beyond the proven tip, and their unasked continuation
+        for i in 0..3u64 {
+            b.plan.peers[attacker].mutations.push(MutSpec { kind: 6, ordinal: i, op: 2003, seed: mix(&[seed, i, 0x10f]) });
         }
     }
     b.plan.flags = vec!["byz".into(), "no_ban_reconnect_delay".into()];
